@@ -62,12 +62,30 @@ theorem lt_arangeLen {start stop step : Rat} {i : Nat} (h : i < arangeLen start 
   have h1 : (i : Int) < ((stop - start) / step).ceil := by omega
   exact (Rat.lt_ceil_iff (x := (stop - start) / step) (y := (i : Int))).mp h1
 
-theorem arangeLen_of_whole {start stop step : Rat} {n : Nat} (hs : 0 < step)
+theorem lt_arangeLen_iff {start stop step : Rat} {i : Nat} :
+    i < arangeLen start stop step ↔ (i : Rat) < (stop - start) / step := by
+  unfold arangeLen
+  rw [Int.lt_toNat]
+  exact Rat.lt_ceil_iff (x := (stop - start) / step) (y := (i : Int))
+
+theorem div_neg (x s : Rat) (hs : s ≠ 0) : x / (-s) = (-x) / s := by
+  have h1 : x / (-s) * (-s) = x := Rat.div_mul_cancel (by grind)
+  have h2 : (-x) / s * s = -x := Rat.div_mul_cancel hs
+  have h3 : (x / (-s) - (-x) / s) * s = 0 := by grind
+  rcases Rat.mul_eq_zero.mp h3 with h | h
+  · grind
+  · exact absurd h hs
+
+theorem arangeLen_of_whole' {start stop step : Rat} {n : Nat} (hs : step ≠ 0)
     (h : stop - start = (n : Rat) * step) : arangeLen start stop step = n := by
   unfold arangeLen
   have : (stop - start) / step = ((n : Int) : Rat) := by
-    rw [h, Rat.mul_div_cancel (by grind)]; rfl
+    rw [h, Rat.mul_div_cancel hs]; rfl
   rw [this, Rat.ceil_intCast]; simp
+
+theorem arangeLen_of_whole {start stop step : Rat} {n : Nat} (hs : 0 < step)
+    (h : stop - start = (n : Rat) * step) : arangeLen start stop step = n :=
+  arangeLen_of_whole' (by grind) h
 
 /-! ### sorted axes: minimum, maximum, `#{c ≤ v}` -/
 
@@ -147,5 +165,64 @@ theorem sorted_head_le {coords : List Rat} (h : Sorted coords) (hne : coords ≠
 
 theorem countLE_le_length (coords : List Rat) (v : Rat) : countLE coords v ≤ coords.length :=
   List.countP_le_length
+
+/-! ### more about lattices (C17) -/
+
+theorem lattice_append (a s : Rat) (m k : Nat) :
+    lattice a s m ++ lattice (a + (m : Rat) * s) s k = lattice a s (m + k) := by
+  apply List.ext_getElem
+  · simp
+  · intro i h1 h2
+    by_cases hi : i < m
+    · rw [List.getElem_append_left (by simpa using hi)]
+      simp [lattice_getElem]
+    · rw [List.getElem_append_right (by simpa using hi)]
+      simp only [lattice_getElem, lattice_length]
+      have : ((i - m : Nat) : Rat) = (i : Rat) - (m : Rat) := by
+        obtain ⟨d, rfl⟩ : ∃ d, i = m + d := ⟨i - m, by omega⟩
+        simp; grind
+      rw [this]; grind
+
+theorem lattice_neg_reverse (x s : Rat) (m : Nat) :
+    (lattice x (-s) m).reverse = lattice (x - (m : Rat) * s + s) s m := by
+  apply List.ext_getElem
+  · simp
+  · intro i h1 h2
+    simp only [List.getElem_reverse, lattice_getElem, lattice_length]
+    have hi : i < m := by simpa using h2
+    have : ((m - 1 - i : Nat) : Rat) = (m : Rat) - 1 - (i : Rat) := by
+      obtain ⟨d, rfl⟩ : ∃ d, m = i + 1 + d := ⟨m - 1 - i, by omega⟩
+      have : i + 1 + d - 1 - i = d := by omega
+      rw [this]; simp; grind
+    rw [this]; grind
+
+theorem lattice_drop (a s : Rat) (m k : Nat) :
+    (lattice a s m).drop k = lattice (a + (k : Rat) * s) s (m - k) := by
+  apply List.ext_getElem
+  · simp
+  · intro i h1 h2
+    simp only [List.getElem_drop, lattice_getElem]
+    simp; grind
+
+theorem lattice_take (a s : Rat) (m k : Nat) :
+    (lattice a s m).take k = lattice a s (min k m) := by
+  apply List.ext_getElem
+  · simp
+  · intro i h1 h2
+    simp [lattice_getElem]
+
+/-- distinct indices give distinct lattice points when the step is not zero -/
+theorem lattice_nodup (a s : Rat) (n : Nat) (hs : s ≠ 0) : (lattice a s n).Nodup := by
+  rw [List.nodup_iff_pairwise_ne, List.pairwise_iff_getElem]
+  intro i j hi hj hij h
+  simp only [lattice_getElem] at h
+  have h1 : ((i : Rat) - (j : Rat)) * s = 0 := by grind
+  have h2 : (i : Rat) - (j : Rat) = 0 := by
+    rcases Rat.mul_eq_zero.mp h1 with h | h
+    · exact h
+    · exact absurd h hs
+  have : (i : Rat) = (j : Rat) := by grind
+  have := Rat.natCast_inj.mp this
+  omega
 
 end SE.Axis
